@@ -171,7 +171,7 @@ def check_pattern(ctx, case):
         asserted += 1
         if not abs(got - expv) <= C * tol + 1e-300:
             raise Violation('%s: window %d gives %r, definition %r (tol %.3g)' % (op, i, got, expv, C * tol), case)
-    ctx.case(case, asserted > 0, ['pattern:' + op, 'int' if exact else 'float'])
+    ctx.case(case, asserted > 0, ['pattern:' + op, 'int' if exact else 'float'] + (['unit:%g' % case['unit']] if case.get('unit', 1.0) != 1.0 else []))
 
 
 # ------------------------------------------------------------------------------------------------
@@ -328,7 +328,13 @@ def pattern_cases(draw):
     else:
         pattern = draw(hnp.arrays(dt, (n,), elements=_values(dt, small)))
         view = None
-    return {'kind': 'pattern', 'op': op, 'trace': trace, 'pattern': pattern, 'pattern_view': view}
+    unit = 1.0
+    if np.dtype(dt).kind == 'f' and draw(st.integers(0, 2)) == 0:
+        # the same signal in another unit (volts instead of millivolts, amperes instead of ADC codes): the scores of correlation / bcdc do not depend on it
+        unit = draw(st.sampled_from([1e-3, 1e-6, 1e-9, 1e4]))
+        trace = (trace.astype('float64') * unit).astype(dt)
+        pattern = trace[view:view + n].copy() if view is not None else (pattern.astype('float64') * unit).astype(dt)
+    return {'kind': 'pattern', 'op': op, 'trace': trace, 'pattern': pattern, 'pattern_view': view, 'unit': unit}
 
 
 @st.composite
